@@ -549,13 +549,11 @@ theorem mark_fact (m : Method) (x : List Ev) (hraw : ∀ t a, Ev.start t a ∈ x
       exact ih' _ rest
     | start t a =>
       have hr := hraw t a (by simp)
-      simp only [List.cons_append, coalesceWith, coalesceRGo, hr, presStep_nil, flMark, List.singleton_append,
-        unmX_start, unmP_start]
+      simp only [List.cons_append, coalesceWith, coalesceRGo, hr, presStep_nil]
       rw [ih' [] rest]
       simp [flMark, unmX_start, unmP_start, unmX_end, unmP_end]
     | end_ t =>
-      simp only [List.cons_append, coalesceWith, coalesceRGo, flMark, List.singleton_append, unmX_end, unmP_end,
-        Nat.zero_sub]
+      simp only [List.cons_append, coalesceWith, coalesceRGo, Nat.zero_sub]
       rw [ih' [] rest]
       simp [flMark, unmX_start, unmP_start, unmX_end, unmP_end]
 
@@ -899,5 +897,71 @@ mutual
         simp only [nodesOkB, Bool.and_eq_true] at h
         simp only [expectedListR, expectedList, expectedNodeR_of_B m n env h.1, expectedListR_of_B m ns env h.2]
 end
+
+/-! ### rendered templates satisfy the hypothesis of `escaping_by_enclosing_elements` -/
+
+/-- the stack of open elements that goes with the reader state: outside raw text no open element is a
+    raw-text element; inside, exactly the innermost one is -/
+def StackInv (m : Method) : Option (List Char) → List Name → Prop
+  | none, st => ∀ t ∈ st, isRawElem m t = false
+  | some _, st => ∃ t st', st = t :: st' ∧ isRawElem m t = true ∧ ∀ u ∈ st', isRawElem m u = false
+
+theorem topRaw_plain (m : Method) (st : List Name) (h : ∀ t ∈ st, isRawElem m t = false) : topRaw m st = false := by
+  cases st with
+  | nil => rfl
+  | cons t ts => exact h t (by simp)
+
+theorem toksOkR_rawLeaf (m : Method) (toks : List Tok) :
+    ∀ (rs : Option (List Char)) (st : List Name), ToksOkR m rs toks → StackInv m rs st → rawLeafGo m st toks = true := by
+  induction toks with
+  | nil => intro rs st _ _; rfl
+  | cons tok toks ih =>
+    intro rs st hok hst
+    cases rs with
+    | none =>
+      have hst' : ∀ t ∈ st, isRawElem m t = false := hst
+      cases tok with
+      | text s f => exact ih none st hok.2 hst
+      | «open» t a =>
+        obtain ⟨_, _, _, hok'⟩ := hok
+        simp only [rawLeafGo, topRaw_plain m st hst', Bool.not_false, Bool.true_and]
+        by_cases hraw : isRawElem m t = true
+        · simp only [hraw, ↓reduceIte] at hok'
+          exact ih (some []) (t :: st) hok' ⟨t, st, rfl, hraw, hst'⟩
+        · have hraw' : isRawElem m t = false := by simpa using hraw
+          simp only [hraw', Bool.false_eq_true, ↓reduceIte] at hok'
+          refine ih none (t :: st) hok' ?_
+          intro u hu
+          rcases List.mem_cons.mp hu with rfl | hu
+          · exact hraw'
+          · exact hst' u hu
+      | empty t a =>
+        simp only [rawLeafGo, topRaw_plain m st hst', Bool.not_false, Bool.true_and]
+        exact ih none st hok.2.2 hst
+      | close t =>
+        simp only [rawLeafGo]
+        refine ih none st.tail hok.2 ?_
+        intro u hu
+        exact hst' u (List.mem_of_mem_tail hu)
+    | some c =>
+      obtain ⟨t0, st', rfl, hraw0, hrest⟩ := hst
+      cases tok with
+      | text s f => exact ih (some (c ++ s)) (t0 :: st') hok.2 ⟨t0, st', rfl, hraw0, hrest⟩
+      | «open» t a => exact absurd hok (by simp [ToksOkR])
+      | empty t a => exact absurd hok (by simp [ToksOkR])
+      | close t =>
+        simp only [rawLeafGo, List.tail_cons]
+        exact ih none st' hok.2 hrest
+
+/-- in a rendered template of `nodesOkR` raw-text elements have no element children -/
+theorem render_rawLeaf (m : Method) (env : Env) (T : List Node)
+    (hs : nodesOkR m env T = true) (hd : listOk env T = true) (he : EnvOk env) :
+    rawLeafGo m [] (emptyTags (renderList env T)) = true := by
+  obtain ⟨h1, _⟩ := list_specR m T env hs hd he
+  have hok : EvsOkR m none (renderList env T) := by simpa using h1.ok [] trivial
+  have hnest : emptyOkGo m none (renderList env T) = true := by
+    have := h1.closed.1 []
+    simpa [emptyOkGo] using this
+  exact toksOkR_rawLeaf m _ none [] ((toksOkR_emptyTags m _).1 none hok hnest) (by intro t ht; simp at ht)
 
 end Genshi.Subst
